@@ -67,7 +67,24 @@ CreqFailed(r) ==
 \* (its own validate() passed): C01 speaks about "every message the toolkit accepts as valid"
 AccFailed(r) == IF r.err = "" /\ r.dec.ok /\ Same(r.cls, r.m, r.dec.m) THEN {} ELSE {"C01.roundtrip"}
 
-Failed(r) == CASE r.e = "enc" -> EncFailed(r) [] r.e = "dec" -> DecFailed(r) [] r.e = "acc" -> AccFailed(r)
+\* trxcon's TRXD receive path on arbitrary octets (trx_data_rx_cb): a datagram is taken iff it
+\* is a version-0 PDU of a legal burst length with a frame number inside the hyperframe; the
+\* indication then carries the timeslot of the three TN bits (the reserved bit next to them is
+\* not part of it: the scheduler indexes its timeslot array with this value), the frame number
+\* and the soft bits per layout (without the two padding octets)
+CfzFn(raw) == (raw[3] * 256 + raw[4]) * 256 + raw[5]
+CfzAccepts(raw) == /\ Len(raw) >= 8 /\ raw[1] \div 16 = 0
+                   /\ (Len(raw) - 8) \in {GB, GB + 2, 3 * GB, 3 * GB + 2}
+                   /\ raw[2] = 0 /\ CfzFn(raw) < Hyperframe          \* (32-bit arithmetic: the top octet apart)
+CfzBits(raw) == LET n == IF (Len(raw) - 8) \in {GB, GB + 2} THEN GB ELSE 3 * GB IN
+                [k \in 1..n |-> SoftOf(raw[8 + k])]
+CfzFailed(r) ==
+  IF ~CfzAccepts(r.raw) THEN (IF r.has THEN {"C14.trxcon.accepts-malformed-datagram"} ELSE {})
+  ELSE IF ~r.has THEN {"C14.trxcon.indication-missing"}
+  ELSE IF r.ind.tn = r.raw[1] % 8 /\ r.ind.fn = CfzFn(r.raw) /\ r.ind.bits = CfzBits(r.raw)
+       THEN {} ELSE {"C14.trxcon.indication-fields"}
+
+Failed(r) == CASE r.e = "cfz" -> CfzFailed(r) [] r.e = "enc" -> EncFailed(r) [] r.e = "dec" -> DecFailed(r) [] r.e = "acc" -> AccFailed(r)
                [] r.e = "cind" -> CindFailed(r) [] r.e = "creq" -> CreqFailed(r)
 
 RInit == i = 0
